@@ -14,6 +14,47 @@ def jobs(tier, seed):
     return out
 
 
+def real_cuts(how, n):
+    return {"whole": [n], "bytes": list(range(1, n + 1)), "tcp120": list(range(120, n, 120)) + [n]}.get(how, [n])
+
+
+def judge_real(res, version, stream, ref, kind, how, cuts, sim_seed):
+    from ..drive import strict
+    from ..lifetimes import run_threaded_stream
+
+    state, writes, errs = run_threaded_stream(kind, sim_seed, stream, cuts, version)
+    res.evals += 1
+    res.count("real_thread_runs")
+    case = {"version": version, "stream_hex": stream.hex(), "cuts": cuts if how == "random" else cuts[:8], "seg": how, "run": "real-" + kind, "sim_seed": sim_seed}
+    if errs:
+        res.violation(f"real-threads:{kind}:thread-died:{errs[0][1]}", f"library thread died while receiving the stream: {errs[:2]}", case)
+        return
+    if state is None:
+        res.notes.append("real-thread run could not connect (inconclusive)")
+        return
+    got_sent = norm_sent(writes)
+    if strict(state) != strict(ref["state"]):
+        res.violation(f"real-threads:{kind}:state-differs", f"real threaded {kind} gateway: final state differs from the line-level reference", case)
+    elif sorted(got_sent) != sorted(ref["sent"]):
+        res.violation(f"real-threads:{kind}:output-multiset-differs", f"real threaded {kind} gateway: emitted {got_sent!r}, reference {ref['sent']!r}", case)
+    elif got_sent != ref["sent"]:
+        # same commands in another order: only the known interleaving of direct replies vs spawned jobs is tolerated
+        pool = {}
+        for l, k in zip(ref["sent"], ref["kinds"]):
+            pool.setdefault(l, []).append(k)
+        lab = [pool[l].pop(0) if pool.get(l) else "?" for l in got_sent]
+        gd = [l for l, k in zip(got_sent, lab) if k == "direct"]
+        gs = [l for l, k in zip(got_sent, lab) if k == "spawned"]
+        rd = [l for l, k in zip(ref["sent"], ref["kinds"]) if k == "direct"]
+        rs = [l for l, k in zip(ref["sent"], ref["kinds"]) if k == "spawned"]
+        if gd == rd and gs == rs:
+            res.violation("order-differs:spawned-jobs-vs-direct-replies:lagging-threaded-pump",
+                          f"real threaded {kind} gateway: same commands, spawned jobs emitted after direct replies of later lines", case)
+        else:
+            res.violation(f"real-threads:{kind}:order-differs", f"real threaded {kind} gateway: emitted order {got_sent!r} vs {ref['sent']!r}", case)
+    res.nontrivial(("real", kind, how, core.h(stream.hex())))
+
+
 def run_real_threads(job):
     """The same streams through the real reader thread + poll thread of SerialGateway / TCPGateway (thread simulation)."""
     import faulthandler
@@ -35,39 +76,8 @@ def run_real_threads(job):
             n = len(stream)
             for kind in ("tcp", "serial"):
                 how = rng.choice(["whole", "bytes", "tcp120", "random"])
-                cuts = {"whole": [n], "bytes": list(range(1, n + 1)), "tcp120": list(range(120, n, 120)) + [n],
-                        "random": sorted(set(rng.sample(range(1, n), min(5, n - 1)))) + [n] if n > 1 else [n]}[how]
-                state, writes, errs = run_threaded_stream(kind, rng.randint(0, 10**6), stream, cuts, version)
-                res.evals += 1
-                res.count("real_thread_runs")
-                case = {"version": version, "stream_hex": stream.hex(), "cuts": cuts[:40], "seg": how, "run": "real-" + kind}
-                if errs:
-                    res.violation(f"real-threads:{kind}:thread-died:{errs[0][1]}", f"library thread died while receiving the stream: {errs[:2]}", case)
-                    continue
-                if state is None:
-                    res.notes.append("real-thread run could not connect (inconclusive)")
-                    continue
-                got_sent = norm_sent(writes)
-                if strict(state) != strict(ref["state"]):
-                    res.violation(f"real-threads:{kind}:state-differs", f"real threaded {kind} gateway: final state differs from the line-level reference", case)
-                elif sorted(got_sent) != sorted(ref["sent"]):
-                    res.violation(f"real-threads:{kind}:output-multiset-differs", f"real threaded {kind} gateway: emitted {got_sent!r}, reference {ref['sent']!r}", case)
-                elif got_sent != ref["sent"]:
-                    # same commands in another order: only the known interleaving of direct replies vs spawned jobs is tolerated
-                    pool = {}
-                    for l, k in zip(ref["sent"], ref["kinds"]):
-                        pool.setdefault(l, []).append(k)
-                    lab = [pool[l].pop(0) if pool.get(l) else "?" for l in got_sent]
-                    gd = [l for l, k in zip(got_sent, lab) if k == "direct"]
-                    gs = [l for l, k in zip(got_sent, lab) if k == "spawned"]
-                    rd = [l for l, k in zip(ref["sent"], ref["kinds"]) if k == "direct"]
-                    rs = [l for l, k in zip(ref["sent"], ref["kinds"]) if k == "spawned"]
-                    if gd == rd and gs == rs:
-                        res.violation("order-differs:spawned-jobs-vs-direct-replies:lagging-threaded-pump",
-                                      f"real threaded {kind} gateway: same commands, spawned jobs emitted after direct replies of later lines", case)
-                    else:
-                        res.violation(f"real-threads:{kind}:order-differs", f"real threaded {kind} gateway: emitted order {got_sent!r} vs {ref['sent']!r}", case)
-                res.nontrivial(("real", kind, how, core.h(stream.hex())))
+                cuts = sorted(set(rng.sample(range(1, n), min(5, n - 1)))) + [n] if how == "random" and n > 1 else real_cuts(how, n)
+                judge_real(res, version, stream, ref, kind, how, cuts, rng.randint(0, 10**6))
     finally:
         faulthandler.cancel_dump_traceback_later()
     return res
@@ -336,6 +346,10 @@ def replay(case):
     if cuts[-1] != len(stream):
         cuts = cuts + [len(stream)]
     r = case.get("run", "async")
+    if r.startswith("real-"):
+        how = case["seg"]
+        judge_real(res, version, stream, ref, r[5:], how, case["cuts"] if how == "random" else real_cuts(how, len(stream)), case.get("sim_seed", 0))
+        return res
     if r == "reconnect":
         c = case["cuts"][0]
         compare(res, run_reconnect(version, "async", stream, c), run_reconnect(version, "sync", stream, c), "flavours-across-reconnect", case, False)
